@@ -1,5 +1,6 @@
 import Femio.Driver.Proto
 import Femio.Model.Tensor
+import Femio.Model.TensorRound
 /-! driver commands for C17 (exact rationals in, exact rationals out) -/
 namespace Femio.C17D
 open Femio.Proto Femio.Gradient Femio.Tensor
@@ -56,6 +57,10 @@ def handle : List String → Option String
   | "c17.align" :: rest => do
     let (cells, ms) ← run (do let c ← nat; let ms ← listOf (listOf entryP); pure (c, ms)) rest
     some ("ok " ++ showRat (dummyScale cells ms) ++ " " ++ showList showSp (alignNnz cells ms))
+  | "c17.alignfl" :: rest => do
+    -- binary64 model of the dummy trick: D, then (c, v) pairs -> fl(fl(v + d_c) - d_c) for every pair
+    let (D, cv) ← run (do let D ← rat; let cv ← listOf (do let c ← nat; let v ← rat; pure (c, v)); pure (D, cv)) rest
+    some ("ok " ++ showRats (cv.map fun e => Femio.TensorRound.alignEntryFl D e.1 e.2))
   | _ => none
 
 end Femio.C17D
